@@ -50,7 +50,8 @@ def runs(tier, seed):
 
 
 def search_runs(tier, seed):
-    return [("s%d" % i, ["net", "-level", "ctrl", "-recover", "-seed", str(seed * 983 + i), "-n", "60", "-size", "4"]) for i in range(8)]
+    # only reached after a correspondence break: now a failing timely continuation is a failing input
+    return [("s%d" % i, ["net", "-level", "ctrl", "-recover", "-strict", "-seed", str(seed * 983 + i), "-n", "40", "-size", "4", "-steps", "80"]) for i in range(8)]
 
 
 def nontrivial(case):
